@@ -108,6 +108,15 @@ CLAIMED["C20"] = _entry(
     "static analysis: sanitised-store (closed set of clamp forms with CFG dominators), def-use flow of size arguments into the thumb geometry, linear canonical forms, CFG ordering",
 )
 
+CLAIMED["C19"] = _entry(
+    "Static analysis decides the structural idioms that make the partitions exact: unit discipline in the allocation helpers; the running-remainder apportionment (space and weight both "
+    "decremented on every path, ascending order when shares are clamped from below); the remainder definition of the second margin in calculate_left_right_padding / "
+    "calculate_top_bottom_filler with sum-preserving later adjustments; and GridFlow's wrap budget = drawn row width + one separator. Non-negativity, proportionality within one column, "
+    "focus-column visibility and rounding are integer-range properties and are not decided (level 'other').",
+    "DESIGN.md section 3, C19; engines E2, E6",
+    "static analysis: pattern-anchored CFG path rules on the apportionment loops, linear/polynomial canonical forms for remainder and budget relations, cols/rows unit inference",
+)
+
 _PENDING = "check not built yet in this session (planned per DESIGN.md section 3); listed here until its static rules exist and pass on the pinned tree"
 NOT_APPLICABLE = {pid: _PENDING for pid in [f"C{i:02d}" for i in range(1, 21)] if pid not in CLAIMED and pid != "C07"}
 NOT_APPLICABLE["C07"] = (
